@@ -217,6 +217,13 @@ fn after_on_executed(
         sig.extend_from_slice(&vol.unwrap_or(0).to_le_bytes());
         sig.extend_from_slice(&(input.now - pre.start_time).to_le_bytes());
         m.nontrivial(&sig);
+        if m.wants_sample() && post.leaderboard.len() == MAX_BOARD && vol.unwrap_or(0) % 7 == 0 {
+            m.sample(json!({
+                "kind": "counted trade", "trader": short(&input.trader), "volume": vol.unwrap_or(0).to_string(),
+                "seconds_since_start": input.now - pre.start_time, "end_time_before": pre.end_time, "end_time_after": post.end_time,
+                "extension_cap": pre.extension_cap, "leaderboard_after": board_json(post), "participants": model.volumes.len(),
+            }));
+        }
     }
 }
 
@@ -989,10 +996,10 @@ pub fn run(args: &Args) -> Option<i32> {
     );
     let n_shards = args.scale(64, 256);
     let only = args.extra.get("only").cloned().unwrap_or_default();
-    let direct_histories = if only == "real" { 0 } else { args.scale(40, 120) };
+    let direct_histories = if only == "real" { 0 } else { args.scale(30, 80) };
     let direct_ops = args.scale(220, 300);
-    let real_histories = if only == "direct" { 0 } else { args.scale(1, 2) };
-    let real_ops = args.scale(40, 80);
+    let real_histories = if only == "direct" { 0 } else { args.scale(1, 1) };
+    let real_ops = args.scale(30, 80);
     let seed = args.seed;
     vcommon::monitor::run_shards(&mut mon, args.threads, n_shards, |shard, m| {
         for h in 0..direct_histories {
@@ -1020,7 +1027,7 @@ pub fn run(args: &Args) -> Option<i32> {
     mon.assume("ties are tolerated: a participant left off a full board may have exactly the last entry's volume; equal volumes may appear in any order");
     mon.assume("reading of the title: while the board has a free slot every trader with a counted trade is on it");
     mon.assume("threshold / merge-window logic is not predicted; only the stated end-time bounds are asserted on every successful instruction");
-    mon.require("trades_counted", args.scale(100_000, 1_000_000));
+    mon.require("trades_counted", args.scale(60_000, 1_000_000));
     mon.require("board_full_with_participants_left_off", args.scale(10_000, 100_000));
     mon.require("extension_moved_end", args.scale(5_000, 50_000));
     mon.require("extension_clipped_at_trigger_plus_cap", args.scale(500, 5_000));
